@@ -132,6 +132,7 @@ func propC14(c *Ctx) {
 		}
 	}
 	c.goPrimitives()
+	c.goMapPrimitives()
 	w := int64(300)
 	if !c.quick {
 		w = 70000
